@@ -153,7 +153,7 @@ def build(S, tier):
                         return [ops.PySet(g) for g in groups.values()]
                     nx.attrs["connected_components"] = Builtin("connected_components", cc)
                     np_ = I.loader.models["numpy"]
-                    np_.attrs["fromiter"] = Builtin("np.fromiter", lambda I_, a, k: Tensor((len(list(a[0].items)),), list(a[0].items), "int"))
+                    np_.attrs["fromiter"] = Builtin("np.fromiter", lambda I_, a, k: Tensor((len(list(a[0].items)),), list(a[0].items), "int" if str(getattr(k.get("dtype"), "name", k.get("dtype"))).startswith("int") or k.get("dtype") is None else "float"))
 
                     class A4(Ext):
                         def py_len(self, I_):
